@@ -291,7 +291,30 @@ func runC03(c *core.Ctx) core.Meta {
 				st1.Instances++
 				c.MarkAnalysed(fn)
 				missing := false
-				g.Walk([]core.State{{N: g.Entry}}, core.WalkOpts{Stop: isSet}, func(s core.State) {
+				// a call of a sibling handler (run*, not inlined) that sets the code itself - and is
+				// judged by this rule in its own right - sets it on that path
+				isSetOrHandler := func(n *core.Node) bool {
+					if isSet(n) {
+						return true
+					}
+					cc := core.CallOf(n.Instr)
+					if cc == nil || cc.IsInvoke() {
+						return false
+					}
+					cal := cc.StaticCallee()
+					if cal == nil || cal.Pkg != fn.Pkg || !strings.HasPrefix(cal.Name(), "run") {
+						return false
+					}
+					for _, cb := range cal.Blocks {
+						for _, cin := range cb.Instrs {
+							if name, _ := stateMethod(cin); name == m {
+								return true
+							}
+						}
+					}
+					return false
+				}
+				g.Walk([]core.State{{N: g.Entry}}, core.WalkOpts{Stop: isSetOrHandler}, func(s core.State) {
 					if _, ok := s.N.Instr.(*ssa.Return); ok && s.N.Frame.Parent == nil {
 						missing = true
 					}
@@ -2023,6 +2046,7 @@ func runC03(c *core.Ctx) core.Meta {
 	}
 
 	checkDestinationNeverRead(c)
+	checkCompareDispatcherAlwaysDispatches(c)
 	return core.Meta{Level: "other",
 		Explanation: "ISA rules that are uniform across opcodes and visible in the code shape, decided for both ALUs: dispatch integrity of every opcode switch (one handler per case, panicking default), ALL-OR-NONE for condition-code writes in every handler, shift-amount intervals in every handler of a shift instruction (handlers tied to instruction names through decode table → dispatch switch → callee), and destination-only operand writes / PC / EXEC writers.",
 		NotDecided:  "arithmetic, rounding, saturation, carries and comparison semantics of individual opcodes (bit-exact conformance needs an executable ISA transcription, a different technique)",
